@@ -206,16 +206,16 @@ def cond_agrees_full : Prop := ∀ (ρ : Env) (v : V) (arms : List Pat), Impl.ev
 /-- KF-dict-fallback-open: `let {2?: y:5} = {1: 1}` binds y = 5 although no reading of the pattern gives `{1: 1}` -/
 theorem bind_sound_full_false : ¬ bind_sound_full := by
   intro h
-  have hm := h [] (.dict [(.num 2, .name "y", some (.num 5))]) (mkDict [(.num 1, .num 1)]) [("y", .num 5)] (by decide)
+  have hm := h [] (.dict [(.num 2, .name "y", some (.lit (.num 5)))]) (mkDict [(.num 1, .num 1)]) [("y", .num 5)] (by decide)
   exact spec_bind_none [] _ _ (by decide) (by decide) ⟨_, hm⟩
 
 /-- KF-pattern-multi-optional: `let [?x:4, ?y:5] = [1]` is rejected although x = 1, y = 5 is its one match -/
 theorem bind_complete_full_false : ¬ bind_complete_full := by
   intro h
-  have hm : Matches [] (.arr [(.name "x", some (.num 4)), (.name "y", some (.num 5))]) (mkArr [.num 1])
+  have hm : Matches [] (.arr [(.name "x", some (.lit (.num 4))), (.name "y", some (.lit (.num 5)))]) (mkArr [.num 1])
       [("y", .num 5), ("x", .num 1)] := spec_bind_sound [] _ _ _ (by decide)
   obtain ⟨σ', hb, _⟩ := h [] _ _ _ (by decide) hm
-  have : Impl.bind [] (.arr [(.name "x", some (.num 4)), (.name "y", some (.num 5))]) (mkArr [.num 1]) = .err := by
+  have : Impl.bind [] (.arr [(.name "x", some (.lit (.num 4))), (.name "y", some (.lit (.num 5)))]) (mkArr [.num 1]) = .err := by
     decide
   rw [this] at hb; cases hb
 
@@ -243,10 +243,21 @@ theorem repeated_names_false_before_repair (str : V → String) (a b : V) (hab :
     have := hag "x" a b (by simp [List.lookup]) (by simp [List.lookup])
     exact hab this.symm
 
+/-- a `?:` fallback — also one nested inside the pattern that another fallback supplies the value for — is evaluated
+in the scope that encloses the whole pattern: `let n = 3; let (a?: (b?: x:n):()) = (); x` is 3 -/
+theorem nested_fallback_sees_enclosing_scope :
+    Impl.bind [("n", .num 3)]
+      (.tup [("a", .tup [("b", .name "x", some (.var "n"))], some (.lit (.tup [])))]) (.tup []) = .ok [("x", .num 3)] ∧
+    Spec.bind [("n", .num 3)]
+      (.tup [("a", .tup [("b", .name "x", some (.var "n"))], some (.lit (.tup [])))]) (.tup []) = some [("x", .num 3)] ∧
+    Impl.bind [("n", .num 3)]
+      (.arr [(.name "y", none), (.arr [(.name "x", some (.add "n" 1))], some (.lit (.arr 0 [])))]) (mkArr [.num 7])
+        = .ok [("x", .num 4), ("y", .num 7)] := by decide
+
 /-! the hypotheses are satisfiable by non-trivial patterns -/
 example : supported [("o", .num 7)]
     (.arr [(.name "x", none), (.rest "t", none),
-           (.tup [("a", .name "x", none), ("b", .name "y", some (.num 2)), ("", .rest "", none)], none),
+           (.tup [("a", .name "x", none), ("b", .name "y", some (.lit (.num 2))), ("", .rest "", none)], none),
            (.dict [(.num 1, .exprs [.var "o"], none), (.ff, .rest "r", none)], none),
            (.set [.lit (.num 1), .name "z"], none)]) = true := by decide
 
